@@ -5,6 +5,7 @@ package c18
 // file looks at what the code under test returns.
 
 import (
+	"bytes"
 	"context"
 	"crypto"
 	"crypto/ecdsa"
@@ -516,6 +517,7 @@ type scripted struct {
 	gensigAnswers int
 	genenvAnswers int
 	reqPayload    []byte // payload of the last generate-envelope request
+	inPlace       bool   // the edited payload was written into the request's own buffer
 	signedPayload []byte // payload the plugin put into its envelope
 	harness       string // harness-side problem (reported as harness error)
 }
@@ -554,7 +556,7 @@ func (s *scripted) GetMetadata(ctx context.Context, req *pf.GetMetadataRequest) 
 }
 
 func wrongID(id string, n int) string {
-	switch n % 4 {
+	switch n % 9 {
 	case 0:
 		return id + "x"
 	case 1:
@@ -564,6 +566,16 @@ func wrongID(id string, n int) string {
 		return id + " "
 	case 2:
 		return ""
+	case 3: // ids that merely relate to the requested one: a key id is an opaque string
+		return id + "/rotated-2019"
+	case 4:
+		return id + "/"
+	case 5:
+		return id[:len(id)-1]
+	case 6:
+		return id + "#1"
+	case 7:
+		return id + ":v2"
 	}
 	return "other-key"
 }
@@ -764,6 +776,10 @@ func (s *scripted) GenerateEnvelope(ctx context.Context, req *pf.GenerateEnvelop
 				p.editPayload(e)
 			}
 			payload = p.bytes()
+			if s.c.InPlace && len(payload) == len(req.Payload) && !bytes.Equal(payload, req.Payload) {
+				copy(req.Payload, payload)
+				payload, s.inPlace = req.Payload, true
+			}
 		}
 	}
 	now := time.Now()
